@@ -22,7 +22,9 @@ Terminal  : "the terminal" is file descriptor 1 (stdout) and 2 (stderr) of the x
             replaced by write-through text wrappers over those same fds, so output of real children (inherited
             fds), of aliases (Python streams) and of xonsh's own tee of captured output all land in the same
             two files.  fd 0 is /dev/null.
-Hang bound: 20 s per execution (typical 3-15 ms), SIGALRM re-armed every 2 s, BaseException subclass.
+Hang bound: 10 s per execution (typical 3-15 ms), SIGALRM re-armed every 2 s, BaseException subclass; a hang is a
+            recorded failure; after 4 hangs a worker stops (its process is full of stuck threads) and counts the rest
+            of its share as inconclusive.
 """
 
 from __future__ import annotations
@@ -49,7 +51,8 @@ RULE = ("(1) product: documented redirect spelling x stage kind (external / thre
         "variants, malformed operators; every case has >= 1 redirect or pipe, non-trivial = every case; distinct = hash of the "
         "case (rendered source + configuration)")
 
-HANG_S = 20
+HANG_S = 10
+MAX_HANGS = 4          # per worker; afterwards the worker's remaining cases are counted as inconclusive
 # A rejected command (conflict / unopenable target) must never have *delivered* anything.  Whether it may already have
 # created an (empty) write target or truncated a `>` target it was asked to overwrite is not stated by the property text
 # ("reported as errors rather than silently misrouted") nor by the tutorial; DESIGN.md section 2 asked for "all targets
@@ -862,6 +865,7 @@ def check_case(case):
         labels.append("terminal-noise")
     obs["touched"] = 0
     if obs["exc"] == "HANG":
+        _state["hangs"] = _state.get("hangs", 0) + 1
         f = Failure("hang", case, "%r did not return within %d s" % (render(case), HANG_S),
                     finding=classify(case, None, obs, ["hang"]), bucket="hang|" + _signature(case, ["hang"]))
         return f, labels, obs
@@ -1021,6 +1025,9 @@ def worker_product(arg):
                 continue
             if permille < 1000 and int(common.h64(("c07", seed, g)), 16) % 1000 >= permille:
                 continue
+            if _state.get("hangs", 0) >= MAX_HANGS:
+                st.inconclusive += 1
+                continue
             run_group(g, st)
     finally:
         _clear_immutable()
@@ -1173,6 +1180,9 @@ def worker_generated(arg):
     st = Stats()
 
     def body(case):
+        if _state.get("hangs", 0) >= MAX_HANGS:
+            st.inconclusive += 1
+            return
         f, labels, obs = check_generated(case)
         if "undefined" in labels:
             st.discards += 1
@@ -1196,7 +1206,7 @@ def worker_generated(arg):
             smaller = [g for g in st.failures if g.bucket == b and _case_size(g) < _case_size(f)]
             if smaller:
                 f = min(smaller, key=_case_size)
-            if f.finding or nmin >= 3 or "pair" in f.case or any(r.get("raw") for _i, _k, r in iter_redirs(f.case)):
+            if f.finding or f.kind == "hang" or nmin >= 3 or _state.get("hangs", 0) >= MAX_HANGS or "pair" in f.case or any(r.get("raw") for _i, _k, r in iter_redirs(f.case)):
                 out.append(f)
                 continue
             nmin += 1
